@@ -110,6 +110,16 @@ func c04Oracle(p *Plan) *Verdict {
 		}
 	case rp.Err != nil:
 		want := rp.Err
+		if b.Protocol == ProtoREST {
+			want = jsonExpressible(want) // all a REST backend can say
+		}
+		detailsOptional := false
+		if rc.Client.Form == FormREST {
+			// a REST client is told what JSON can express; if some detail cannot be expressed, the details may go as a whole
+			if je := jsonExpressible(want); len(je.Details) != len(want.Details) {
+				want, detailsOptional = je, true
+			}
+		}
 		if o.Kind != "error" || o.Err == nil {
 			v.violate("error-lost", facts, "backend failed with %s %q; client saw %s", codeName(want.Code), want.Msg, outcomeBrief(o))
 			return v
@@ -120,7 +130,9 @@ func c04Oracle(p *Plan) *Verdict {
 		if o.Err.Msg != want.Msg {
 			v.violate("message-changed", facts, "backend message %q; client saw %q", want.Msg, o.Err.Msg)
 		}
-		if len(o.Err.Details) != len(want.Details) {
+		if detailsOptional && len(o.Err.Details) == 0 {
+			v.probe("rest-details-dropped")
+		} else if len(o.Err.Details) != len(want.Details) {
 			v.violate("details-changed", facts, "backend sent %d details; client saw %d", len(want.Details), len(o.Err.Details))
 		} else {
 			for i := range want.Details {
